@@ -1,10 +1,10 @@
 package simrt
 
 import (
-	"fmt"
 	"runtime"
 	"sync"
 	"time"
+	"unsafe"
 )
 
 // Active switches every hook on. With Active false the instrumented code behaves as the
@@ -46,33 +46,21 @@ type SchedDecision struct {
 // PKey addresses a yield of one task.
 type PKey struct{ Task, Class, Idx int }
 
-type Race struct {
-	Var              int
-	Kind             string // "W-W", "W-R", "R-W"
-	TaskA, TaskB     int
-	SiteA, SiteB     int
-	CallA, CallB     int
-}
-
 type Task struct {
-	ID      int
-	Fn      func()
-	Order   *OrderSource
-	wake    chan struct{}
-	state   int // 0 runnable, 1 blocked, 2 done
-	vc      []uint32
-	SyncOps int // synchronisation operations performed so far
-	Yields  int // all yields so far
+	ID        int
+	Fn        func()
+	Order     *OrderSource
+	wake      chan struct{}
+	state     int // 0 runnable, 1 blocked, 2 done
+	SyncOps   int // synchronisation operations performed so far
+	Yields    int // all yields so far
 	AccYields int // yields at package-variable accesses and sync operations
-	depth   int
-	CallIdx int // set by the harness: index of the call the task is executing
-	Panic   any
-	lastSite int
-	noVC    bool // too many library goroutines: scheduled, but no vector clock and no access log
-	Root    int // the root task this goroutine descends from (itself for a caller task)
-	SyncObjs map[any]bool // synchronisation objects touched since the harness last reset it (per call)
-	parent  int
-	pending map[cellKey]*pendRead // reads of package variables mentioned in the current call, not yet committed
+	depth     int
+	CallIdx   int // set by the harness: index of the call the task is executing
+	Panic     any
+	lastSite  int
+	Root      int // the root task this goroutine descends from (itself for a caller task)
+	parent    int
 }
 
 const (
@@ -84,48 +72,42 @@ const (
 // Sched runs tasks as real goroutines released one at a time: the choice of who runs is
 // the simulator's, taken at yield points (hooks) only.
 type Sched struct {
-	Tasks     []*Task
-	cur       *Task
-	YieldN    int
-	Replay    bool
-	Rng       *Rand
-	PreemptAt map[PKey]bool // generate mode: task-local yields at which to preempt
-	PreemptGlobal map[int]bool // generate mode: global yield indices at which to preempt whoever runs (reaches goroutines the library starts itself)
-	replayPre map[PKey]int  // replay mode: task-local yield -> task to switch to
-	replayOth []SchedDecision
-	othPos    int
-	Decisions []SchedDecision
-	MaxYields int // no preemptions after this many yields
-	AbortYields int // a library call that is still yielding after this many is unwound with ErrBudget
-	Overrun   bool
-	globalSync []uint32
-	wseq      int
+	Tasks          []*Task
+	cur            *Task
+	YieldN         int
+	Replay         bool
+	Rng            *Rand
+	PreemptAt      map[PKey]bool // generate mode: task-local yields at which to preempt
+	PreemptGlobal  map[int]bool  // generate mode: global yield indices at which to preempt whoever runs (reaches goroutines the library starts itself)
+	replayPre      map[PKey]int  // replay mode: task-local yield -> task to switch to
+	replayOth      []SchedDecision
+	othPos         int
+	Decisions      []SchedDecision
+	MaxYields      int // no preemptions after this many yields
+	AbortYields    int // a library call that is still yielding after this many is unwound with ErrBudget
+	Overrun        bool
+	wseq           int
 	live           []*Task // tasks that have not finished, in creation order
 	baseGoroutines int
 	UnownedSeen    bool
-	MaxTasks  int // beyond this many tasks, go statements run inline
-	GoCalls   int
-	InlineGo  int
-	OnStep    func(ran *Task, reason string) // monitors; called by the runner before every hand-off and at task end
-	done      chan struct{}
-	Deadlock  bool
-	Races     []Race
-	cells     map[cellKey]*cell
-	subsOf    map[int][]uintptr
-	Switches  int // context switches taken strictly inside a call (preemptions)
-	Frozen    bool // no more preemptions (after a violation was seen, or the cap was hit)
-	Stalled   bool
-	mutexes   map[any]*simMutex
-	onces     map[*sync.Once]*simOnce
-	wgs       map[*sync.WaitGroup]*simWG
-	SwitchSeq []uint64 // (task,site) of every preemption, for the interleaving hash
+	GoCalls        int
+	OnStep         func(ran *Task, reason string) // monitors; called by the runner before every hand-off and at task end
+	done           chan struct{}
+	Deadlock       bool
+	Switches       int  // context switches taken strictly inside a call (preemptions)
+	Frozen         bool // no more preemptions (after a violation was seen, or the cap was hit)
+	Stalled        bool
+	mutexes        map[any]*simMutex
+	onces          map[*sync.Once]*simOnce
+	wgs            map[*sync.WaitGroup]*simWG
+	SwitchSeq      []uint64 // (task,site) of every preemption, for the interleaving hash
 }
 
 var sched *Sched
 
 func NewSched(rng *Rand) *Sched {
-	return &Sched{Rng: rng, PreemptAt: map[PKey]bool{}, PreemptGlobal: map[int]bool{}, MaxYields: 5_000_000, MaxTasks: 192,
-		cells: map[cellKey]*cell{}, subsOf: map[int][]uintptr{}, mutexes: map[any]*simMutex{}, onces: map[*sync.Once]*simOnce{}, wgs: map[*sync.WaitGroup]*simWG{}}
+	return &Sched{Rng: rng, PreemptAt: map[PKey]bool{}, PreemptGlobal: map[int]bool{}, MaxYields: 5_000_000,
+		mutexes: map[any]*simMutex{}, onces: map[*sync.Once]*simOnce{}, wgs: map[*sync.WaitGroup]*simWG{}}
 }
 
 // NewReplaySched builds a scheduler that follows an explicit decision list.
@@ -214,10 +196,7 @@ func (s *Sched) Run(watchdog time.Duration) bool {
 	s.baseGoroutines = runtime.NumGoroutine()
 	sched = s
 	s.done = make(chan struct{}, 1)
-	n := len(s.Tasks)
 	for _, t := range s.Tasks {
-		t.vc = make([]uint32, n)
-		t.vc[t.ID] = 1
 		s.startGoroutine(t)
 	}
 	first := s.pickOther("start", nil)
@@ -249,7 +228,6 @@ func (s *Sched) startGoroutine(t *Task) {
 			}()
 			t.Fn()
 		}()
-		s.CommitReads(t, 1)
 		t.state = stDone
 		s.wakeWaiters()
 		if s.OnStep != nil {
@@ -389,6 +367,10 @@ func Enter(site int) {
 	if !Active {
 		return
 	}
+	if rs := rInSim(); rs != nil {
+		rs.yield(site, 0)
+		return
+	}
 	if s := sched; s != nil && s.cur != nil {
 		s.yield(site, 0)
 		return
@@ -419,37 +401,20 @@ func SyncOp(site int) {
 	if !Active {
 		return
 	}
+	if rs := rInSim(); rs != nil {
+		rs.syncOp(site)
+		return
+	}
 	if s := sched; s != nil && s.cur != nil {
 		s.cur.SyncOps++
-		s.cur.touch(globalSyncToken{})
 		s.yield(site, 1)
-		// atomics / sync.Map / sync.Pool operations are modelled as acquire+release of one
-		// global synchronisation object: more happens-before edges than the real thing, hence
-		// never a false race
-		s.cur.acquire(s.globalSync)
-		s.cur.release(&s.globalSync)
 	}
 }
 
-// Clock returns the task's own logical clock.
-func (t *Task) Clock() uint32 {
-	if !t.noVC && t.ID < len(t.vc) {
-		return t.vc[t.ID]
-	}
-	return 0
-}
-
-// Addr evaluates f (which takes the address of a component of a package variable) and
-// returns the pointer, or nil if that panics (nil pointer, index out of range: the hook is
-// evaluated before the statement, possibly before the check that guards it).
-func Addr(f func() any) (p any) {
-	defer func() {
-		if recover() != nil {
-			p = nil
-		}
-	}()
-	return f()
-}
+// Addr once evaluated f (the address of the component of a package variable a statement
+// touches) for the vector-clock monitor. Ordering is now judged by the race detector (lane
+// R); the hooks are yield points only and the address is not needed, so f is not evaluated.
+func Addr(f func() any) any { return nil }
 
 // LastSite returns the site of the task's most recent yield.
 func (t *Task) LastSite() int { return t.lastSite }
@@ -461,16 +426,6 @@ func CallDepth(d int) {
 	}
 }
 
-func (t *Task) touch(o any) {
-	if t.SyncObjs == nil {
-		t.SyncObjs = map[any]bool{}
-	}
-	t.SyncObjs[o] = true
-}
-
-// globalSyncToken stands for "some atomic / sync.Map / sync.Pool operation".
-type globalSyncToken struct{}
-
 // CurTask returns the running task (nil outside the scheduler).
 func CurTask() *Task {
 	if s := sched; s != nil {
@@ -479,43 +434,12 @@ func CurTask() *Task {
 	return nil
 }
 
-func join(dst, src []uint32) {
-	for i := range src {
-		if i < len(dst) && src[i] > dst[i] {
-			dst[i] = src[i]
-		}
-	}
-}
-
-func (t *Task) release(into *[]uint32) {
-	if t.noVC {
-		return
-	}
-	if *into == nil {
-		*into = make([]uint32, len(t.vc))
-	}
-	if len(*into) < len(t.vc) {
-		n := make([]uint32, len(t.vc))
-		copy(n, *into)
-		*into = n
-	}
-	join(*into, t.vc)
-	t.vc[t.ID]++
-}
-
-func (t *Task) acquire(from []uint32) {
-	if !t.noVC {
-		join(t.vc, from)
-	}
-}
-
 // ---- sync shims ----
 
 type simMutex struct {
 	owner   *Task // writer
 	readers map[*Task]int
 	waiters []*Task
-	vc      []uint32
 }
 
 func (s *Sched) mutexFor(key any) *simMutex {
@@ -530,7 +454,6 @@ func (s *Sched) mutexFor(key any) *simMutex {
 func (s *Sched) lock(key any, site int, shared bool) {
 	t := s.cur
 	t.SyncOps++
-	t.touch(key)
 	s.yield(site, 1)
 	m := s.mutexFor(key)
 	for {
@@ -546,13 +469,11 @@ func (s *Sched) lock(key any, site int, shared bool) {
 	} else {
 		m.owner = t
 	}
-	t.acquire(m.vc)
 }
 
 func (s *Sched) unlock(key any, site int, shared bool) {
 	t := s.cur
 	t.SyncOps++
-	t.touch(key)
 	m := s.mutexFor(key)
 	if shared {
 		if m.readers[t] > 0 {
@@ -564,7 +485,6 @@ func (s *Sched) unlock(key any, site int, shared bool) {
 	} else {
 		m.owner = nil
 	}
-	t.release(&m.vc)
 	for _, w := range m.waiters {
 		if w.state == stBlocked {
 			w.state = stRunnable
@@ -585,6 +505,11 @@ func inSim() *Sched {
 }
 
 func MutexLock(site int, m *sync.Mutex) {
+	if rs := rInSim(); rs != nil {
+		rs.lock(unsafe.Pointer(m), site, false)
+		m.Lock() // uncontended: the race detector sees the edge the library's lock creates
+		return
+	}
 	if s := inSim(); s != nil {
 		s.lock(m, site, false)
 		return
@@ -592,6 +517,11 @@ func MutexLock(site int, m *sync.Mutex) {
 	m.Lock()
 }
 func MutexUnlock(site int, m *sync.Mutex) {
+	if rs := rInSim(); rs != nil {
+		m.Unlock()
+		rs.unlock(unsafe.Pointer(m), site, false)
+		return
+	}
 	if s := inSim(); s != nil {
 		s.unlock(m, site, false)
 		return
@@ -599,13 +529,17 @@ func MutexUnlock(site int, m *sync.Mutex) {
 	m.Unlock()
 }
 func MutexTryLock(site int, m *sync.Mutex) bool {
+	if rs := rInSim(); rs != nil {
+		if rs.tryLock(unsafe.Pointer(m), site) {
+			return m.TryLock()
+		}
+		return false
+	}
 	if s := inSim(); s != nil {
 		sm := s.mutexFor(m)
 		s.cur.SyncOps++
-		s.cur.touch(m)
 		if sm.owner == nil && len(sm.readers) == 0 {
 			sm.owner = s.cur
-			s.cur.acquire(sm.vc)
 			return true
 		}
 		return false
@@ -613,6 +547,11 @@ func MutexTryLock(site int, m *sync.Mutex) bool {
 	return m.TryLock()
 }
 func RWLock(site int, m *sync.RWMutex) {
+	if rs := rInSim(); rs != nil {
+		rs.lock(unsafe.Pointer(m), site, false)
+		m.Lock()
+		return
+	}
 	if s := inSim(); s != nil {
 		s.lock(m, site, false)
 		return
@@ -620,6 +559,11 @@ func RWLock(site int, m *sync.RWMutex) {
 	m.Lock()
 }
 func RWUnlock(site int, m *sync.RWMutex) {
+	if rs := rInSim(); rs != nil {
+		m.Unlock()
+		rs.unlock(unsafe.Pointer(m), site, false)
+		return
+	}
 	if s := inSim(); s != nil {
 		s.unlock(m, site, false)
 		return
@@ -627,6 +571,11 @@ func RWUnlock(site int, m *sync.RWMutex) {
 	m.Unlock()
 }
 func RWRLock(site int, m *sync.RWMutex) {
+	if rs := rInSim(); rs != nil {
+		rs.lock(unsafe.Pointer(m), site, true)
+		m.RLock()
+		return
+	}
 	if s := inSim(); s != nil {
 		s.lock(m, site, true)
 		return
@@ -634,6 +583,11 @@ func RWRLock(site int, m *sync.RWMutex) {
 	m.RLock()
 }
 func RWRUnlock(site int, m *sync.RWMutex) {
+	if rs := rInSim(); rs != nil {
+		m.RUnlock()
+		rs.unlock(unsafe.Pointer(m), site, true)
+		return
+	}
 	if s := inSim(); s != nil {
 		s.unlock(m, site, true)
 		return
@@ -645,10 +599,16 @@ type simOnce struct {
 	state   int // 0 new, 1 running, 2 done
 	runner  *Task
 	waiters []*Task
-	vc      []uint32
 }
 
 func OnceDo(site int, o *sync.Once, f func()) {
+	if rs := rInSim(); rs != nil {
+		if rs.onceEnter(unsafe.Pointer(o), site) {
+			defer rs.onceLeave(unsafe.Pointer(o))
+		}
+		o.Do(f) // the real Once decides (and gives the race detector its edge)
+		return
+	}
 	s := inSim()
 	if s == nil {
 		if Active {
@@ -661,7 +621,6 @@ func OnceDo(site int, o *sync.Once, f func()) {
 	}
 	t := s.cur
 	t.SyncOps++
-	t.touch(o)
 	s.yield(site, 1)
 	so := s.onces[o]
 	if so == nil {
@@ -673,7 +632,6 @@ func OnceDo(site int, o *sync.Once, f func()) {
 		s.block(t)
 	}
 	if so.state == 2 {
-		t.acquire(so.vc)
 		return
 	}
 	if so.state == 1 && so.runner == t {
@@ -682,7 +640,6 @@ func OnceDo(site int, o *sync.Once, f func()) {
 	so.state, so.runner = 1, t
 	defer func() {
 		so.state = 2
-		t.release(&so.vc)
 		for _, w := range so.waiters {
 			if w.state == stBlocked {
 				w.state = stRunnable
@@ -698,7 +655,6 @@ func OnceDo(site int, o *sync.Once, f func()) {
 type simWG struct {
 	n       int
 	waiters []*Task
-	vc      []uint32
 }
 
 func (s *Sched) wgFor(w *sync.WaitGroup) *simWG {
@@ -711,14 +667,15 @@ func (s *Sched) wgFor(w *sync.WaitGroup) *simWG {
 }
 
 func WGAdd(site int, w *sync.WaitGroup, n int) {
+	if rs := rInSim(); rs != nil {
+		w.Add(n)
+		rs.wgAdd(unsafe.Pointer(w), site, n)
+		return
+	}
 	if s := inSim(); s != nil {
 		g := s.wgFor(w)
 		g.n += n
 		s.cur.SyncOps++
-		s.cur.touch(w)
-		if n < 0 {
-			s.cur.release(&g.vc)
-		}
 		if g.n == 0 {
 			for _, x := range g.waiters {
 				if x.state == stBlocked {
@@ -737,6 +694,11 @@ func WGAdd(site int, w *sync.WaitGroup, n int) {
 }
 func WGDone(site int, w *sync.WaitGroup) { WGAddDone(site, w) }
 func WGAddDone(site int, w *sync.WaitGroup) {
+	if rs := rInSim(); rs != nil {
+		w.Done()
+		rs.wgAdd(unsafe.Pointer(w), site, -1)
+		return
+	}
 	if s := inSim(); s != nil {
 		WGAdd(site, w, -1)
 		return
@@ -747,17 +709,20 @@ func WGAddDone(site int, w *sync.WaitGroup) {
 	w.Done()
 }
 func WGWait(site int, w *sync.WaitGroup) {
+	if rs := rInSim(); rs != nil {
+		rs.wgWait(unsafe.Pointer(w), site)
+		w.Wait() // the real counter is zero by now
+		return
+	}
 	if s := inSim(); s != nil {
 		t := s.cur
 		t.SyncOps++
-		t.touch(w)
 		s.yield(site, 1)
 		g := s.wgFor(w)
 		for g.n > 0 {
 			g.waiters = append(g.waiters, t)
 			s.block(t)
 		}
-		t.acquire(g.vc)
 		return
 	}
 	if Active && !RealGo {
@@ -770,6 +735,10 @@ func WGWait(site int, w *sync.WaitGroup) {
 // single-task simulation it runs inline (a legal schedule: the child runs to completion at
 // once); with the simulator inactive it is a real goroutine.
 func Go(site int, f func()) {
+	if rs := rInSim(); rs != nil {
+		rGo(rs, site, f)
+		return
+	}
 	if s := inSim(); s != nil {
 		p := s.cur
 		p.SyncOps++
@@ -777,26 +746,6 @@ func Go(site int, f func()) {
 		t := &Task{ID: len(s.Tasks), Fn: f, Order: p.Order, wake: make(chan struct{}, 1), parent: p.ID, CallIdx: p.CallIdx, depth: p.depth, SyncOps: 1, Root: p.Root}
 		s.Tasks = append(s.Tasks, t)
 		s.live = append(s.live, t)
-		if len(s.Tasks) > s.MaxTasks || p.noVC {
-			// enough goroutines of the library carry vector clocks already (their cost grows with
-			// the square of the task count): this one is scheduled like the others but its
-			// accesses are not logged. (Running it inline at the go statement instead would not
-			// be a legal schedule if its parent holds a lock it needs.)
-			s.InlineGo++
-			t.noVC = true
-		} else {
-			for _, o := range s.Tasks {
-				if o.noVC {
-					continue
-				}
-				for len(o.vc) < len(s.Tasks) {
-					o.vc = append(o.vc, 0)
-				}
-			}
-			copy(t.vc, p.vc)
-			t.vc[t.ID] = 1
-			p.vc[p.ID]++
-		}
 		s.startGoroutine(t)
 		s.yield(site, 1)
 		return
@@ -809,8 +758,8 @@ func Go(site int, f func()) {
 }
 
 // Go1..Go8 replace `go F(a, ...)`: F and the arguments are evaluated here, at the statement.
-func Go1[A any](site int, f func(A), a A) { Go(site, func() { f(a) }) }
-func Go2[A, B any](site int, f func(A, B), a A, b B) { Go(site, func() { f(a, b) }) }
+func Go1[A any](site int, f func(A), a A)                       { Go(site, func() { f(a) }) }
+func Go2[A, B any](site int, f func(A, B), a A, b B)            { Go(site, func() { f(a, b) }) }
 func Go3[A, B, C any](site int, f func(A, B, C), a A, b B, c C) { Go(site, func() { f(a, b, c) }) }
 func Go4[A, B, C, D any](site int, f func(A, B, C, D), a A, b B, c C, d D) {
 	Go(site, func() { f(a, b, c, d) })
@@ -905,26 +854,48 @@ func RegisterGlobals(pkg string, gs []Global) {
 	}
 }
 
-func (r Race) String() string {
-	return fmt.Sprintf("%s var=%d task%d@site%d(call %d) / task%d@site%d(call %d)", r.Kind, r.Var, r.TaskA, r.SiteA, r.CallA, r.TaskB, r.SiteB, r.CallB)
-}
-
 // GoRn / GoRRn: the callee of a go statement returns one / two values (discarded).
-func GoR0[R any](site int, f func() R) { Go(site, func() { f() }) }
-func GoRR0[R1, R2 any](site int, f func() (R1, R2)) { Go(site, func() { f() }) }
-func GoR1[A, R any](site int, f func(A) R, a0 A) { Go(site, func() { f(a0) }) }
+func GoR0[R any](site int, f func() R)                        { Go(site, func() { f() }) }
+func GoRR0[R1, R2 any](site int, f func() (R1, R2))           { Go(site, func() { f() }) }
+func GoR1[A, R any](site int, f func(A) R, a0 A)              { Go(site, func() { f(a0) }) }
 func GoRR1[A, R1, R2 any](site int, f func(A) (R1, R2), a0 A) { Go(site, func() { f(a0) }) }
-func GoR2[A, B, R any](site int, f func(A, B) R, a0 A, b1 B) { Go(site, func() { f(a0, b1) }) }
-func GoRR2[A, B, R1, R2 any](site int, f func(A, B) (R1, R2), a0 A, b1 B) { Go(site, func() { f(a0, b1) }) }
-func GoR3[A, B, C, R any](site int, f func(A, B, C) R, a0 A, b1 B, c2 C) { Go(site, func() { f(a0, b1, c2) }) }
-func GoRR3[A, B, C, R1, R2 any](site int, f func(A, B, C) (R1, R2), a0 A, b1 B, c2 C) { Go(site, func() { f(a0, b1, c2) }) }
-func GoR4[A, B, C, D, R any](site int, f func(A, B, C, D) R, a0 A, b1 B, c2 C, d3 D) { Go(site, func() { f(a0, b1, c2, d3) }) }
-func GoRR4[A, B, C, D, R1, R2 any](site int, f func(A, B, C, D) (R1, R2), a0 A, b1 B, c2 C, d3 D) { Go(site, func() { f(a0, b1, c2, d3) }) }
-func GoR5[A, B, C, D, E, R any](site int, f func(A, B, C, D, E) R, a0 A, b1 B, c2 C, d3 D, e4 E) { Go(site, func() { f(a0, b1, c2, d3, e4) }) }
-func GoRR5[A, B, C, D, E, R1, R2 any](site int, f func(A, B, C, D, E) (R1, R2), a0 A, b1 B, c2 C, d3 D, e4 E) { Go(site, func() { f(a0, b1, c2, d3, e4) }) }
-func GoR6[A, B, C, D, E, F, R any](site int, f func(A, B, C, D, E, F) R, a0 A, b1 B, c2 C, d3 D, e4 E, f5 F) { Go(site, func() { f(a0, b1, c2, d3, e4, f5) }) }
-func GoRR6[A, B, C, D, E, F, R1, R2 any](site int, f func(A, B, C, D, E, F) (R1, R2), a0 A, b1 B, c2 C, d3 D, e4 E, f5 F) { Go(site, func() { f(a0, b1, c2, d3, e4, f5) }) }
-func GoR7[A, B, C, D, E, F, G, R any](site int, f func(A, B, C, D, E, F, G) R, a0 A, b1 B, c2 C, d3 D, e4 E, f5 F, g6 G) { Go(site, func() { f(a0, b1, c2, d3, e4, f5, g6) }) }
-func GoRR7[A, B, C, D, E, F, G, R1, R2 any](site int, f func(A, B, C, D, E, F, G) (R1, R2), a0 A, b1 B, c2 C, d3 D, e4 E, f5 F, g6 G) { Go(site, func() { f(a0, b1, c2, d3, e4, f5, g6) }) }
-func GoR8[A, B, C, D, E, F, G, H, R any](site int, f func(A, B, C, D, E, F, G, H) R, a0 A, b1 B, c2 C, d3 D, e4 E, f5 F, g6 G, h7 H) { Go(site, func() { f(a0, b1, c2, d3, e4, f5, g6, h7) }) }
-func GoRR8[A, B, C, D, E, F, G, H, R1, R2 any](site int, f func(A, B, C, D, E, F, G, H) (R1, R2), a0 A, b1 B, c2 C, d3 D, e4 E, f5 F, g6 G, h7 H) { Go(site, func() { f(a0, b1, c2, d3, e4, f5, g6, h7) }) }
+func GoR2[A, B, R any](site int, f func(A, B) R, a0 A, b1 B)  { Go(site, func() { f(a0, b1) }) }
+func GoRR2[A, B, R1, R2 any](site int, f func(A, B) (R1, R2), a0 A, b1 B) {
+	Go(site, func() { f(a0, b1) })
+}
+func GoR3[A, B, C, R any](site int, f func(A, B, C) R, a0 A, b1 B, c2 C) {
+	Go(site, func() { f(a0, b1, c2) })
+}
+func GoRR3[A, B, C, R1, R2 any](site int, f func(A, B, C) (R1, R2), a0 A, b1 B, c2 C) {
+	Go(site, func() { f(a0, b1, c2) })
+}
+func GoR4[A, B, C, D, R any](site int, f func(A, B, C, D) R, a0 A, b1 B, c2 C, d3 D) {
+	Go(site, func() { f(a0, b1, c2, d3) })
+}
+func GoRR4[A, B, C, D, R1, R2 any](site int, f func(A, B, C, D) (R1, R2), a0 A, b1 B, c2 C, d3 D) {
+	Go(site, func() { f(a0, b1, c2, d3) })
+}
+func GoR5[A, B, C, D, E, R any](site int, f func(A, B, C, D, E) R, a0 A, b1 B, c2 C, d3 D, e4 E) {
+	Go(site, func() { f(a0, b1, c2, d3, e4) })
+}
+func GoRR5[A, B, C, D, E, R1, R2 any](site int, f func(A, B, C, D, E) (R1, R2), a0 A, b1 B, c2 C, d3 D, e4 E) {
+	Go(site, func() { f(a0, b1, c2, d3, e4) })
+}
+func GoR6[A, B, C, D, E, F, R any](site int, f func(A, B, C, D, E, F) R, a0 A, b1 B, c2 C, d3 D, e4 E, f5 F) {
+	Go(site, func() { f(a0, b1, c2, d3, e4, f5) })
+}
+func GoRR6[A, B, C, D, E, F, R1, R2 any](site int, f func(A, B, C, D, E, F) (R1, R2), a0 A, b1 B, c2 C, d3 D, e4 E, f5 F) {
+	Go(site, func() { f(a0, b1, c2, d3, e4, f5) })
+}
+func GoR7[A, B, C, D, E, F, G, R any](site int, f func(A, B, C, D, E, F, G) R, a0 A, b1 B, c2 C, d3 D, e4 E, f5 F, g6 G) {
+	Go(site, func() { f(a0, b1, c2, d3, e4, f5, g6) })
+}
+func GoRR7[A, B, C, D, E, F, G, R1, R2 any](site int, f func(A, B, C, D, E, F, G) (R1, R2), a0 A, b1 B, c2 C, d3 D, e4 E, f5 F, g6 G) {
+	Go(site, func() { f(a0, b1, c2, d3, e4, f5, g6) })
+}
+func GoR8[A, B, C, D, E, F, G, H, R any](site int, f func(A, B, C, D, E, F, G, H) R, a0 A, b1 B, c2 C, d3 D, e4 E, f5 F, g6 G, h7 H) {
+	Go(site, func() { f(a0, b1, c2, d3, e4, f5, g6, h7) })
+}
+func GoRR8[A, B, C, D, E, F, G, H, R1, R2 any](site int, f func(A, B, C, D, E, F, G, H) (R1, R2), a0 A, b1 B, c2 C, d3 D, e4 E, f5 F, g6 G, h7 H) {
+	Go(site, func() { f(a0, b1, c2, d3, e4, f5, g6, h7) })
+}
